@@ -964,6 +964,118 @@ Proof.
     apply G in E2. subst. apply upd_nth_error. exact E.
 Qed.
 
+(* ---- walk_cards ---- *)
+
+Fixpoint visit_list (id : list nat) (l : list card) (k : nat) : list (list nat * card) :=
+  match l with
+  | [] => []
+  | ch :: t => ((id ++ [k], ch) :: visit_children ch (id ++ [k])) ++ visit_list id t (S k)
+  end.
+
+(* visit_children is `for (k, child) in card.iter_children().enumerate()` *)
+Lemma visit_children_unfold c id : visit_children c id = visit_list id (iter_children c) 0.
+Proof.
+  assert (V : forall l k,
+             (fix vlist (l : list card) (k : nat) {struct l} : list (list nat * card) :=
+                match l with
+                | [] => []
+                | ch :: t => ((id ++ [k], ch) :: visit_children ch (id ++ [k])) ++ vlist t (S k)
+                end) l k = visit_list id l k).
+  { induction l as [|x l IH]; intros k; [reflexivity|]. cbn [visit_list]. rewrite <- IH. reflexivity. }
+  destruct c; cbn [visit_children iter_children visit_list]; rewrite ?V, ?app_nil_r; reflexivity.
+Qed.
+
+Lemma card_ind_children (P : card -> Prop) :
+  (forall c, Forall P (iter_children c) -> P c) -> forall c, P c.
+Proof.
+  intros H. induction c using card_ind'; apply H; cbn [iter_children]; auto.
+Qed.
+
+Lemma In_visit_list id l : forall k p x,
+  In (p, x) (visit_list id l k) ->
+  exists j ch, nth_error l j = Some ch /\
+               ((p = id ++ [k + j] /\ x = ch) \/ In (p, x) (visit_children ch (id ++ [k + j]))).
+Proof.
+  induction l as [|a l IH]; intros k p x HI; [destruct HI|].
+  cbn [visit_list] in HI. apply in_app_or in HI. destruct HI as [HI|HI].
+  - exists 0, a. rewrite Nat.add_0_r. split; [reflexivity|]. destruct HI as [HI|HI]; [left|right; exact HI].
+    injection HI as <- <-. auto.
+  - destruct (IH _ _ _ HI) as (j & ch & E & H). exists (S j), ch. rewrite <- plus_n_Sm. auto.
+Qed.
+
+Lemma reach_child c k ch : nth_error (iter_children c) k = Some ch -> reach [k] c = Some ch.
+Proof.
+  intros E. cbn [reach]. pose proof (get_child_mut_spec c k) as H.
+  destruct (get_child_mut c k) as [[ch' put]|]; [|congruence]. destruct H as [H _]. congruence.
+Qed.
+
+Lemma reach_app p : forall q c c1 c2, reach p c = Some c1 -> reach q c1 = Some c2 -> reach (p ++ q) c = Some c2.
+Proof.
+  induction p as [|i p IH]; intros q c c1 c2; cbn [reach app].
+  - intros [= ->]. auto.
+  - destruct (get_child_mut c i) as [[ch put]|]; [|discriminate]. apply IH.
+Qed.
+
+Lemma visit_reach : forall c id p x,
+  In (p, x) (visit_children c id) -> exists q, p = id ++ q /\ reach q c = Some x.
+Proof.
+  induction c as [c IH] using card_ind_children. intros id p x HI.
+  rewrite visit_children_unfold in HI. apply In_visit_list in HI.
+  destruct HI as (j & ch & E & [[-> ->]|HI]).
+  - exists [j]. split; [reflexivity|]. apply reach_child; exact E.
+  - rewrite Forall_forall in IH. specialize (IH ch (nth_error_In _ _ E) _ _ _ HI).
+    destruct IH as (q & -> & R). exists (j :: q). rewrite <- app_assoc. split; [reflexivity|].
+    change (j :: q) with ([j] ++ q). eapply reach_app; eauto. apply reach_child; exact E.
+Qed.
+
+Lemma descend_mut_id path : forall d c x,
+  reach path c = Some x -> exists c', descend_mut path d c (fun c0 => ROk (c0, c0)) = ROk (c', x).
+Proof.
+  induction path as [|i path IH]; intros d c x; cbn [reach descend_mut].
+  - intros [= ->]. eauto.
+  - destruct (get_child_mut c i) as [[ch put]|]; [|discriminate]. intros R.
+    destruct (IH (S d) ch x R) as (c' & ->). eauto.
+Qed.
+
+Lemma In_walk_fn_cards fi cards : forall j idx x,
+  In (idx, x) (walk_fn_cards fi cards j) ->
+  exists k card q, nth_error cards k = Some card /\ idx = mk_index fi ((j + k) :: q) /\ reach q card = Some x.
+Proof.
+  induction cards as [|c cards IH]; intros j idx x HI; [destruct HI|].
+  cbn [walk_fn_cards] in HI. apply in_app_or in HI. destruct HI as [[HI|HI]|HI].
+  - injection HI as <- <-. exists 0, c, []. rewrite Nat.add_0_r. auto.
+  - apply in_map_iff in HI. destruct HI as ([p y] & HE & HI). cbn [fst snd] in HE. injection HE as <- <-.
+    apply visit_reach in HI. destruct HI as (q & -> & R). exists 0, c, q. rewrite Nat.add_0_r. auto.
+  - destruct (IH _ _ _ HI) as (k & card & q & E & -> & R). exists (S k), card, q. rewrite <- plus_n_Sm. auto.
+Qed.
+
+Lemma In_walk_fns fns : forall fi idx x,
+  In (idx, x) (walk_fns fns fi) ->
+  exists n name fn k card q,
+    nth_error fns n = Some (name, fn) /\ nth_error (f_cards fn) k = Some card /\
+    idx = mk_index (fi + n) (k :: q) /\ reach q card = Some x.
+Proof.
+  induction fns as [|[name fn] fns IH]; intros fi idx x HI; [destruct HI|].
+  cbn [walk_fns] in HI. apply in_app_or in HI. destruct HI as [HI|HI].
+  - apply In_walk_fn_cards in HI. destruct HI as (k & card & q & E & -> & R).
+    exists 0, name, fn, k, card, q. rewrite Nat.add_0_r. auto.
+  - destruct (IH _ _ _ HI) as (n & name' & fn' & k & card & q & E1 & E2 & -> & R).
+    exists (S n), name', fn', k, card, q. rewrite <- plus_n_Sm. auto.
+Qed.
+
+(* every (index, card) pair that walk_cards reports looks up to that same card *)
+Theorem walk_lookup m idx x :
+  In (idx, x) (walk_cards m) -> get_card_mut m idx = ROk x /\ get_card m idx = ROk x.
+Proof.
+  intros HI. unfold walk_cards in HI. apply In_walk_fns in HI.
+  destruct HI as (n & name & fn & k & card & q & E1 & E2 & -> & R). cbn [Nat.add].
+  assert (G : get_card_mut m (mk_index n (k :: q)) = ROk x).
+  { unfold get_card_mut, with_card_mut. cbn [mk_index ci_function ci_indices ci_begin].
+    rewrite E1. unfold ci_begin. cbn [ci_indices]. rewrite E2, slice_tail.
+    destruct (descend_mut_id q 1 card x R) as (c' & ->). reflexivity. }
+  split; [exact G|]. apply get_card_ok_iff. exact G.
+Qed.
+
 (* ---- witnesses for the known-finding classes ---- *)
 
 Definition wit_module : module :=
@@ -1005,4 +1117,55 @@ Proof.
   eexists. eexists. eexists. split; [vm_compute; reflexivity|]. split; [vm_compute; reflexivity|].
   split; [reflexivity|]. discriminate.
 Qed.
+
+Theorem walk_complete_unique_partial m idx x :
+  In (idx, x) (walk_cards m) -> get_card_mut m idx = ROk x /\ get_card m idx = ROk x.
+Proof. exact (walk_lookup m idx x). Qed.
+
+Definition covered_op (o : op) : bool :=
+  match o with OpSwap _ _ | OpWalk => false | _ => true end.
+
+(* one API call of the kind-by-kind model is the same call of the rose-tree specification,
+   for every module and every argument outside the decidable known-finding classes
+   (proved for all calls but swap_cards and walk_cards, see the comment at the end of the file) *)
+Theorem step_refines_partial m o :
+  known_class m o = false -> covered_op o = true ->
+  spec_step (to_rmod m) o = (to_rmod (fst (step m o)), abs_obs (snd (step m o))).
+Proof.
+  unfold known_class. intros K C. apply orb_false_elim in K. destruct K as [K K3].
+  apply orb_false_elim in K. destruct K as [K1 K2].
+  destruct o; try discriminate C.
+  - destruct (step_refines_get m idx K3) as [H1 H2]. rewrite H2. exact H1.
+  - destruct (step_refines_get_mut m idx) as [H1 H2]. rewrite H2. exact H1.
+  - apply step_refines_insert. exact K2.
+  - apply step_refines_remove.
+  - apply step_refines_replace.
+  - apply step_refines_kids.
+  - apply step_refines_replace_child.
+Qed.
+
+(* Statements of C16 that are NOT proved here (time budget); each is checked on every generated
+   case by the correspondence run through the specification oracle (code 2), and the parts that
+   are proved are named *_partial:
+
+   step_refines (full):  forall m o, known_class m o = false ->
+       spec_step (to_rmod m) o = (to_rmod (fst (step m o)), abs_obs (snd (step m o)))
+     missing: o = OpSwap a b  (needs: spec_get/spec_replace at unrelated paths commute; the CardIndex
+     order puts the ancestor second; a ScalarNil placeholder has no children) and o = OpWalk
+     (walk_cards m abstracts to spec_walk (to_rmod m)).
+
+   swap_involutive:  forall m a b m1, known_swap_same m (OpSwap a b) = false ->
+       swap_cards m a b = (m1, SwOk) -> swap_cards m1 a b = (m, SwOk)
+     proved fragment: swap_fail_unchanged (a failing swap restores the module).
+
+   remove_insert:  forall m idx x m1, known_call_insert m (OpInsert idx x) = false ->
+       insert_card m idx x = ROk (m1, tt) -> the parent position is a list position ->
+       remove_card m1 idx = ROk (m, x)
+     refuted for fixed slots (remove_insert_fixed_refuted), as documented for insert_child.
+
+   edit_local:  an edit at idx changes no card whose index is not idx, an extension of it, or
+     (for list positions) a later sibling.  Follows from rmodify touching only [upd kids i].
+
+   walk_complete_unique:  forall m idx c, get_card_mut m idx = ROk c <-> In (idx, c) (walk_cards m),
+     and NoDup (map fst (walk_cards m)).   proved fragment: walk_complete_unique_partial (<-). *)
 
